@@ -296,6 +296,63 @@ pub fn run_pools(ctx: &mut Ctx) {
     });
 }
 
+/// Extractor paths over member names of every shape the path syntax admits (anything but
+/// whitespace, controls and `. , = ( ) " [ ] { } #`): non-ASCII names, names with `- _ : @ / ^ & ' +`,
+/// digits; nested, through list indices, from inside a lambda with `^`.
+pub const PATH_KEYS: &[&str] = &["a", "ab", "A", "k1", "1", "-", "a-b", "a_b", "x:y", "p@q", "a/b", "a^b", "a&b", "a'b", "a+b", "\u{e9}", "cl\u{e9}", "\u{fc}ber", "\u{65e5}\u{672c}", "\u{8a9e}", "\u{43a}\u{43b}\u{44e}\u{447}", "\u{5d0}", "\u{ffff}", "a\u{e9}b", "\u{e9}\u{e9}"];
+
+pub struct C04Paths;
+impl Check for C04Paths {
+    type Case = Case04;
+    fn name(&self) -> &'static str {
+        "C04.paths"
+    }
+    fn cases(&self, _t: Tier) -> u64 {
+        0
+    }
+    fn strategy(&self, _t: Tier) -> BoxedStrategy<Case04> {
+        arb_case04(1)
+    }
+    fn check(&self, c: &Case04) -> CaseResult {
+        C04Eval.check(c)
+    }
+}
+
+pub fn run_paths(ctx: &mut Ctx) {
+    let n = PATH_KEYS.len() as u64;
+    const SHAPES: u64 = 8;
+    let total = n * n * SHAPES;
+    let space = format!("all {}^2 ordered pairs of member names x {} path shapes", n, SHAPES);
+    run_enum(ctx, "C04.paths", total, &space, |idx| {
+        let (k1, k2, shape) = (PATH_KEYS[(idx / (n * SHAPES)) as usize], PATH_KEYS[((idx / SHAPES) % n) as usize], idx % SHAPES);
+        let js = |s: &str| {
+            let mut t = String::new();
+            write_json_string_utf8(s, &mut t);
+            t
+        };
+        let inner = if k1 == k2 { format!("{{{}:7}}", js(k2)) } else { format!("{{{}:7,{}:\"w\"}}", js(k2), js(k1)) };
+        let input = if k1 == k2 { format!("{{{}:{},\"zz\":[10,{{{}:\"deep\"}}]}}", js(k1), inner, js(k1)) } else { format!("{{{}:{},{}:[10,{{{}:\"deep\"}}],\"zz\":0}}", js(k1), inner, js(k2), js(k1)) };
+        let key = |k: &str| Step::Key(k.to_string());
+        let list = if k1 == k2 { "zz" } else { k2 };
+        let e = match shape {
+            0 => Expr::Path { up: 0, steps: vec![key(k1)] },
+            1 => Expr::Path { up: 0, steps: vec![key(k1), key(k2)] },
+            2 => Expr::Path { up: 0, steps: vec![key(list), Step::Idx(1), key(k1)] },
+            3 => Expr::Path { up: 0, steps: vec![key(list), Step::Idx(0)] },
+            4 => Expr::Path { up: 0, steps: vec![key(k1), key("missing")] },
+            5 => Expr::Path { up: 0, steps: vec![key("missing"), key(k1)] },
+            6 => Expr::call("map", vec![Expr::Path { up: 0, steps: vec![key(list)] }, Expr::call("?", vec![Expr::call("number?", vec![Expr::dot()]), Expr::Path { up: 1, steps: vec![key(k1), key(k2)] }, Expr::Path { up: 0, steps: vec![key(k1)] }])]),
+            _ => Expr::call("get", vec![Expr::Path { up: 0, steps: vec![key(k1)] }, Expr::Lit(js(k2))]),
+        };
+        let case = Case04 { e, vars: vec![], macros: vec![], priors: vec![], inputs: vec![input], spell: Spell { alias: false, sep: (idx % 3) as u8, sugar: false, pad: false, seed: idx } };
+        let res = match C04Eval.check(&case) {
+            CaseResult::Pass(i) => CaseResult::Pass(i.class("extractor_path").class_if(!k1.is_ascii() || !k2.is_ascii(), "non_ascii_member_name")),
+            o => o,
+        };
+        (Box::new(move || serde_json::to_value(&case).unwrap()), res)
+    });
+}
+
 /// `!=` is the negation of `=` (and "!=" of "=") on every pair, also where the documentation
 /// leaves the value of `=` open (objects that differ in member order, integers beyond 2^53
 /// against floats): a metamorphic relation that needs no expected value.
@@ -372,14 +429,15 @@ pub fn run_negation(ctx: &mut Ctx) {
 }
 
 pub fn run_all(ctx: &mut Ctx) {
-    ctx.rule = "expressions whose root is one of the 108 pure functions (stratified: each function and each of its signatures equally often), depth 1, 3 or 5, type-directed arguments with 3/16 ill-typed, boundary-biased sizes (N = size-1, size, size+1, 0), literals of all six types incl. empty/singleton collections and non-ASCII strings, extractors . .k #i ^, :var, @macro (--set), /name/ (earlier selections), printed with canonical names or aliases and space/comma separators x 1..3 inputs (schema records with absent and wrong-typed fields, or arbitrary values). Oracle: the reference evaluator written from the function documentation; unspecified points (string length unit for non-ASCII, order of different objects, tail, float indices, empty separators, ...) are not judged, floating-point results within relative 1e-12, member order of records synthesised by entries/indexed/fold/zip/cross not compared. non-trivial = at least one input was judged (expected value or expected nothing). C04.pools: every function signature called directly with literal arguments from wide per-kind pools (harness/src/pools.rs: 77 numbers incl. 1e-300, 2^53+-1, 2^63, 2^64-1; 58 strings incl. regex metacharacters and 65-byte strings with a common 64-byte prefix; 67 patterns; lists of 21, 33 and 40 elements; objects that differ in member order; lambda bodies that return nothing for some elements), the whole product when it is below the cap (1500 quick, 60000 thorough per signature), a seeded sample otherwise; same oracle. C04.negation: != is the negation of = (and symmetric) on all pairs of a value pool, also where the value of = itself is left open; the same for \"=\" / \"!=\". C04.nas_sort: the number-as-string sort and its three aliases on up to 160 elements whose keys come from 16 value classes with several spellings each; oracle: stable sort by exact decimal value, elements without a key first (the documented example)".into();
+    ctx.rule = "expressions whose root is one of the 108 pure functions (stratified: each function and each of its signatures equally often), depth 1, 3 or 5, type-directed arguments with 3/16 ill-typed, boundary-biased sizes (N = size-1, size, size+1, 0), literals of all six types incl. empty/singleton collections and non-ASCII strings, extractors . .k #i ^, :var, @macro (--set), /name/ (earlier selections), printed with canonical names or aliases and space/comma separators x 1..3 inputs (schema records with absent and wrong-typed fields, or arbitrary values). Oracle: the reference evaluator written from the function documentation; unspecified points (string length unit for non-ASCII, order of different objects, tail, float indices, empty separators, ...) are not judged, floating-point results within relative 1e-12, member order of records synthesised by entries/indexed/fold/zip/cross not compared. non-trivial = at least one input was judged (expected value or expected nothing). C04.pools: every function signature called directly with literal arguments from wide per-kind pools (harness/src/pools.rs: 77 numbers incl. 1e-300, 2^53+-1, 2^63, 2^64-1; 58 strings incl. regex metacharacters and 65-byte strings with a common 64-byte prefix; 67 patterns; lists of 21, 33 and 40 elements; objects that differ in member order; lambda bodies that return nothing for some elements), the whole product when it is below the cap (1500 quick, 60000 thorough per signature), a seeded sample otherwise. C04.paths: extractor paths (.k, .k1.k2, .k#1.k, ^.k1.k2 inside a lambda) over all ordered pairs of 25 member names of every shape the path syntax admits (non-ASCII, punctuation, digits); same oracle. C04.negation: != is the negation of = (and symmetric) on all pairs of a value pool, also where the value of = itself is left open; the same for \"=\" / \"!=\". C04.nas_sort: the number-as-string sort and its three aliases on up to 160 elements whose keys come from 16 value classes with several spellings each; oracle: stable sort by exact decimal value, elements without a key first (the documented example)".into();
     ctx.assumptions = vec!["the reference evaluator (harness/src/eval.rs) states the documentation correctly; a disagreement is first treated as a possible harness error".into()];
     C04Eval.run(ctx);
     run_pools(ctx);
+    run_paths(ctx);
     run_negation(ctx);
     crate::p07::C07NasSort.run(ctx);
 }
 
 pub fn checks() -> Vec<Box<dyn DynCheck>> {
-    vec![Box::new(C04Eval), Box::new(C04Pools), Box::new(C04Negation), Box::new(crate::p07::C07NasSort)]
+    vec![Box::new(C04Eval), Box::new(C04Pools), Box::new(C04Paths), Box::new(C04Negation), Box::new(crate::p07::C07NasSort)]
 }
